@@ -183,10 +183,31 @@ def check_drain_exhaust(ctx, db):
                 exhaust.append(bi)
             if p.endswith('Drain::<\'a, \'bump, T>::fill') or p.endswith('::move_tail') or (tp.endswith('Extend::extend') and 'Vec' in ga):
                 writers.append((bi, t))
+        def exhausted_before_every_call(body, depth=0):
+            # a private helper the destructor was split into: every call site of it is dominated by the exhaustion in its caller
+            if depth > 3 or body['meta'].get('pub') or body['meta'].get('impl_trait'):
+                return False
+            path = body['meta'].get('path') or body['id']
+            sites = list(db.callers_of(path)) or list(db.callers_of(body['id']))
+            if not sites:
+                return False
+            for cb, cbi, ct in sites:
+                if not (cb['meta'].get('impl_adt') or '').endswith('vec::Splice'):
+                    return False
+                cg = db.cfg(cb)
+                ex = [xbi for xbi, xt in db.calls(cb) if (xt['callee'].get('path') or '').endswith('Iterator::for_each') and 'Drain' in ' '.join(xt['callee'].get('gargs') or [])]
+                if not any(cg.block_dominates(x, cbi) for x in ex) and not exhausted_before_every_call(cb, depth + 1):
+                    return False
+            return True
+        helper_ok = None
         for bi, t in writers:
             n += 1
             fn = arena.short(b['id'])
-            if exhaust and any(g.block_dominates(x, bi) for x in exhaust):
+            if not (exhaust and any(g.block_dominates(x, bi) for x in exhaust)) and helper_ok is None:
+                helper_ok = exhausted_before_every_call(b)
+            if helper_ok and not (exhaust and any(g.block_dominates(x, bi) for x in exhaust)):
+                ctx.ok('R4', '%s: %s only after the drain was exhausted' % (fn, (db.callee_path(t) or '').split('::')[-1]), 'every call site of this private helper is dominated by for_each(drop) in its caller')
+            elif exhaust and any(g.block_dominates(x, bi) for x in exhaust):
                 ctx.ok('R4', '%s: %s only after the drain was exhausted' % (fn, (db.callee_path(t) or '').split('::')[-1]), 'dominance of for_each(drop) over the write')
             else:
                 ctx.violation('R4', fn, 'write-before-exhaust:' + (db.callee_path(t) or '?').split('::')[-1], '%s writes into the vector through its Drain (%s) on a path where the drained range was not exhausted first: the elements still owned by the Drain are overwritten and the new ones dropped twice' % (fn, (db.callee_path(t) or '').split('::')[-1]), t.get('span'))
